@@ -255,7 +255,7 @@ def run_driver(traces):
     txt = []
     for sid, lines in traces:
         txt.append('# %s' % sid)
-        txt.extend(lines)
+        txt.extend(l for l in lines if not l.startswith('#'))
     rc, out, err = sh([driver_exe(), MODEL], input='\n'.join(txt) + '\n', timeout=1500)
     return vlib.split_outputs(out)
 
